@@ -61,7 +61,8 @@ def build(g, sid, positions, SR, chans, deviant=None, has_SR=True, amp=True, off
 
 
 def observe(sid, other):
-    return [{"op": "sq.new", "id": "z"},        # an empty operand without any settings: + still gates on the other operand
+    return [{"op": "sq.SR", "id": sid},         # (a getter: reading it must not create the setting)
+            {"op": "sq.new", "id": "z"},        # an empty operand without any settings: + still gates on the other operand
             {"op": "sq.add", "a": "z", "b": sid, "to": "sumz1"}, {"op": "sq.add", "a": sid, "b": "z", "to": "sumz2"},
             {"op": "sq.check", "id": sid}, {"op": "sq.channels", "id": sid},
             {"op": "sq.forge", "id": sid, "delays": True, "filters": True, "time": False},
